@@ -414,6 +414,34 @@ FIXED += [
      json.loads('{"result": "v1", "steps": [{"out": "v0", "table": "t0", "verb": "source"}, {"in": "v0", "items": [["y", ["fn", "pow", [["fn", "mul", [["col", {"n": "x", "v": "v0"}], ["fn", "hmax", [["col", {"n": "x", "v": "v0"}], ["col", {"c": "x"}], ["col", {"c": "x"}]], {}]], {}], ["lit", 3.0]], {}]]], "out": "v1", "verb": "mutate"}], "tables": [{"cols": [["id", "int64"], ["x", "float64"], ["c", "datetime"], ["d", "datetime"], ["k", "bool"]], "name": "t0", "rows": [[3, -64798.0, null, null, null]]}]}')),
 ]
 
+FIXED += [
+    ("F60-sql-typed-null-float-literal", "C18", "SQL literal of a float type may be null",
+     "SQL: pdt.lit(None, Float64()) raised TypeError (math.isnan(None)) when compiled",
+     {"tables": [TB], "steps": [S(), st("v1", "mutate", "v0", items=[["z", ["lit", None, "float64"]],
+                                                                   ["w", F("fill_null", C("f"), ["lit", None, "float64"])]])],
+      "result": "v1"}),
+]
+
+OPEN += [
+    ("K07-const-column-as-const-parameter", ["C19"],
+     "a constant *column* (mutate(k=1)) passes the type check for a parameter that must be a constant (shift distance, "
+     "round digits), but the backends need a python value: SQL build_query raises TypeError, Polars export ShapeError",
+     r"internal-error\|.*(TypeError|ShapeError)", "const_column_as_const_param",
+     {"tables": [src([["id", "int64"], ["a", "int64"]], [[1, 5], [2, 6], [3, 7]])],
+      "steps": [S(), st("v1", "mutate", "v0", items=[["k", L(1)]]),
+                st("v2", "mutate", "v1", items=[["z", F("shift", C("a"), C("k"), arrange=[[C("id"), False, None, 0]])]])],
+      "result": "v2"}),
+]
+
+FIXED += [
+    ("F61-mssql-offset-constant-order", "C19", "MSSQL OFFSET without a renderable ORDER BY term orders by (SELECT NULL)",
+     "MSSQL: slice_head(offset>0) without arrange on a table whose first column is a literal (or arranged by a literal "
+     "only) raised CompileError: the only ORDER BY term was constant and is not rendered",
+     {"tables": [TG], "steps": [S(), st("v1", "mutate", "v0", items=[["zk", L(1)]]),
+                                st("v2", "select", "v1", cols=[{"c": "zk"}, {"c": "x"}]),
+                                st("v3", "slice_head", "v2", n=2, offset=1)], "result": "v3", "validate": "check"}),
+]
+
 
 def main():
     log = subprocess.run(["git", "-C", "/repo", "log", "--format=%h %s"], capture_output=True, text=True).stdout.splitlines()
